@@ -65,6 +65,11 @@ type RPlan struct {
 	// FailAt: indices (counting every routing indication handed to the socket, from 0) whose
 	// transmission fails - this is how a retransmission can fail, not only an original transmission.
 	FailAt []int `json:"fail_at,omitempty"`
+	// SettleUs > 0: once every lane has finished, wait until no frame has left the socket for this long (and the send
+	// lock is free) before the probe Send and the Close - retransmissions triggered by an un-gated lost indication
+	// are still under way then. NoProbe omits the probe Send.
+	SettleUs int  `json:"settle_us,omitempty"`
+	NoProbe  bool `json:"no_probe,omitempty"`
 }
 
 // REv is one trace entry; T/T2 are nanoseconds since the start (T2: exit stamp of a transmission).
@@ -128,12 +133,36 @@ func indMsg(tag int) *cemi.LDataInd {
 }
 
 func tagOf(m cemi.Message) int {
-	if v, ok := m.(*cemi.LDataInd); ok {
-		if a, ok := v.LData.Data.(*cemi.AppData); ok && len(a.Data) == 5 {
+	var l *cemi.LData
+	switch v := m.(type) {
+	case *cemi.LDataInd:
+		l = &v.LData
+	case *cemi.LDataCon:
+		l = &v.LData
+	case *cemi.LDataReq:
+		l = &v.LData
+	}
+	if l != nil {
+		if a, ok := l.Data.(*cemi.AppData); ok && len(a.Data) == 5 {
 			return int(binary.BigEndian.Uint32(a.Data[1:]))
 		}
 	}
 	return noTag
+}
+
+// inMsg: the routing indication injected for telegram `tag`. On a raw router client a fraction of them carry a
+// confirmation or a request (a function of the tag): every cEMI message is handed to the application alike; the
+// group layer surfaces indications only, so group plans stick to those.
+func inMsg(tag int, group bool) cemi.Message {
+	switch {
+	case group:
+		return indMsg(tag)
+	case tag%7 == 3 || tag%16 == 8:
+		return &cemi.LDataCon{LData: indMsg(tag).LData}
+	case tag%11 == 5:
+		return &cemi.LDataReq{LData: indMsg(tag).LData}
+	}
+	return indMsg(tag)
 }
 
 var errScripted = errors.New("scripted transmission failure")
@@ -368,7 +397,7 @@ func (s *RSim) Run() *RResult {
 					switch n.Kind {
 					case "ind":
 						s.add(REv{K: "inj", Tag: n.Tag + k, Note: "ind"})
-						s.Sock.Inject(&knxnet.RoutingInd{Payload: indMsg(n.Tag + k)})
+						s.Sock.Inject(&knxnet.RoutingInd{Payload: inMsg(n.Tag+k, s.Plan.Group)})
 					case "busy":
 						s.add(REv{K: "inj", Note: "busy", N: n.WaitMs, Tag: noTag})
 						s.Sock.Inject(&knxnet.RoutingBusy{WaitTime: time.Duration(n.WaitMs) * time.Millisecond, Control: uint16(n.Ctl)})
@@ -440,8 +469,19 @@ func (s *RSim) Run() *RResult {
 		s.lostAtQuiescence(65535, cap, limit)
 		sampleRetained()
 	}
+	if p.SettleUs > 0 && p.CloseUs == 0 && !res.SendHung {
+		deadline := time.Now().Add(limit)
+		for time.Now().Before(deadline) {
+			n0 := len(s.Sock.Out())
+			time.Sleep(us(p.SettleUs))
+			if len(s.Sock.Out()) == n0 && !s.R.VerifSendLocked() {
+				s.add(REv{K: "note", Note: "settled"})
+				break
+			}
+		}
+	}
 	// probe: after any history the client can still send (no deadlock)
-	if p.CloseUs == 0 && !res.SendHung {
+	if p.CloseUs == 0 && !res.SendHung && !p.NoProbe {
 		done := make(chan struct{})
 		go func() { s.send(90, 1<<30); close(done) }()
 		select {
